@@ -122,6 +122,70 @@ def copy_carries_everything(ctx):
 
 
 # ----------------------------------------------------------------- R2 positions survive
+def _lines_in_front(x):
+    """Number of lines the parsed text has in front of the method's own source, or None if not evident."""
+    if x is None:
+        return None
+    if isinstance(x, ast.Name):
+        return 0
+    if isinstance(x, ast.Call) and len(x.args) == 1 and not x.keywords:
+        return _lines_in_front(x.args[0])
+    if isinstance(x, ast.BinOp) and isinstance(x.op, ast.Add) and isinstance(x.left, ast.Constant) and isinstance(x.left.value, str):
+        r = _lines_in_front(x.right)
+        return None if r is None else x.left.value.count("\n") + r
+    if isinstance(x, ast.JoinedStr) and x.values and isinstance(x.values[-1], ast.FormattedValue):
+        front = "".join(v.value for v in x.values[:-1] if isinstance(v, ast.Constant))
+        if all(isinstance(v, ast.Constant) for v in x.values[:-1]):
+            r = _lines_in_front(x.values[-1].value)
+            return None if r is None else front.count("\n") + r
+    return None
+
+
+def _block_of(pm, st):
+    p = pm.get(st)
+    for fld in ("body", "orelse", "finalbody"):
+        blk = getattr(p, fld, None)
+        if isinstance(blk, list) and any(x is st for x in blk):
+            return blk
+    return []
+
+
+def r9_source_parsed_verbatim(ctx):
+    """The text handed to the parser is the method's source as written (at most with constant lines in front): no
+    transformation that rewrites the contents of lines."""
+    rc = A.recompiler(ctx.repo)
+    ctx.touch(rc)
+    parses = [x for x in ast.walk(rc.node) if isinstance(x, ast.Call) and call_name(x) in ("ast.parse", "parse")]
+    ctx.require(parses, f"{rc.key}: no ast.parse call")
+
+    def transforms(x, acc):
+        if isinstance(x, ast.Call):
+            cn = call_name(x) or ""
+            if cn not in ("inspect.getsource", "getsource"):
+                acc.append(x)
+            for a in x.args:
+                transforms(a, acc)
+            if isinstance(x.func, ast.Attribute):
+                transforms(x.func.value, acc)
+        elif isinstance(x, ast.BinOp):
+            transforms(x.left, acc)
+            transforms(x.right, acc)
+        elif isinstance(x, ast.Name):
+            for v in [s.value for s in all_stmts(rc.node) if isinstance(s, ast.Assign) and any(dotted(t) == x.id for t in s.targets)]:
+                transforms(v, acc)
+        return acc
+
+    for pc in parses:
+        tr = transforms(pc.args[0], []) if pc.args else []
+        ctx.ob(
+            f"{rc.key}:source-verbatim:{short(pc, 30)}",
+            rc.loc(pc),
+            f"`{short(pc, 50)}` parses the method's source as written",
+            not tr,
+            f"the source passes through `{short(tr[0], 40) if tr else ''}` before it is parsed: whatever that changes inside the lines (the leading whitespace of the lines of a multi-line string literal, for a dedent) changes what the rewritten method computes",
+        )
+
+
 def r2_positions_survive(ctx):
     repo = ctx.repo
     rc = A.recompiler(repo)
@@ -137,21 +201,48 @@ def r2_positions_survive(ctx):
         ok_f = dotted(fname) == f"{srcp}.__code__.co_filename"
         ctx.ob(f"{rc.key}:compile:filename", rc.loc(c), "the rewritten method is compiled under the original file name", ok_f, f"compiled under `{short(fname, 30) if fname is not None else '?'}`: tracebacks and debuggers no longer point at the original file")
         incs = []
+        offsets = []
         for s in all_stmts(rc.node):
             if isinstance(s, ast.Expr) and isinstance(s.value, ast.Call) and call_name(s.value) in ("ast.increment_lineno", "increment_lineno"):
                 a = s.value.args
                 if len(a) >= 2 and dotted(a[0]) == dotted(tree_arg):
                     off = a[1]
-                    good = isinstance(off, ast.BinOp) and isinstance(off.op, ast.Sub) and dotted(off.left) == f"{srcp}.__code__.co_firstlineno" and isinstance(off.right, ast.Constant) and off.right.value == 1
+                    good = isinstance(off, ast.BinOp) and isinstance(off.op, ast.Sub) and dotted(off.left) == f"{srcp}.__code__.co_firstlineno" and isinstance(off.right, (ast.Constant, ast.Name))
                     if good:
                         incs.append(s)
+                        offsets.append(off.right)
         # not rebound between the offset and the compile
         ok_l = bool(incs) and cfg.dominated_by(cfg.node_of(st), [cfg.node_of(s) for s in incs])
         if ok_l:
             last = incs[-1]
             rebinds = [s for s in all_stmts(rc.node) if isinstance(s, ast.Assign) and any(dotted(t) == dotted(tree_arg) for t in s.targets) and cfg.node_of(s) in cfg.reachable(cfg.node_of(last)) and cfg.node_of(st) in cfg.reachable(cfg.node_of(s))]
             ok_l = not rebinds
-        ctx.ob(f"{rc.key}:compile:line-offset", rc.loc(c), f"the tree handed to compile was shifted by `{srcp}.__code__.co_firstlineno - 1`", ok_l, "the rewritten tree is compiled without the original line offset: tracebacks point at wrong line numbers")
+        ctx.ob(f"{rc.key}:compile:line-offset", rc.loc(c), f"the tree handed to compile was shifted relative to `{srcp}.__code__.co_firstlineno`", ok_l, "the rewritten tree is compiled without the original line offset: tracebacks point at wrong line numbers")
+        # the amount: first line of the parsed text that belongs to the source = 1 + lines put in front of it
+        pm = parent_map(rc.node)
+        parses = [(s, x) for s in all_stmts(rc.node) if not hasattr(s, "body") for x in ast.walk(s) if isinstance(x, ast.Call) and call_name(x) in ("ast.parse", "parse")]
+        ctx.require(parses, f"{rc.key}: no ast.parse call")
+        for ps, pc in parses:
+            n_front = _lines_in_front(pc.args[0] if pc.args else None)
+            amount = None
+            for off in offsets:
+                if isinstance(off, ast.Constant):
+                    amount = off.value
+                else:
+                    # the variable's value on the path of this parse: assigned in the same block, else the only assignment
+                    blk = _block_of(pm, ps)
+                    same = [x.value for x in blk if isinstance(x, ast.Assign) and any(dotted(t) == off.id for t in x.targets)]
+                    alls = [x.value for x in all_stmts(rc.node) if isinstance(x, ast.Assign) and any(dotted(t) == off.id for t in x.targets)]
+                    cand = same if same else (alls if len(alls) == 1 else [])
+                    if len(cand) == 1 and isinstance(cand[0], ast.Constant):
+                        amount = cand[0].value
+            ctx.ob(
+                f"{rc.key}:compile:line-offset-amount:{short(pc, 30)}",
+                rc.loc(pc),
+                f"`{short(pc, 40)}` puts {n_front if n_front is not None else '?'} line(s) in front of the method's source, and the tree is shifted by co_firstlineno - {amount if amount is not None else '?'}",
+                n_front is not None and amount == n_front + 1,
+                "the shift does not match the number of lines in front of the source in the parsed text: tracebacks of rewritten methods are off by a line",
+            )
     from .rewriter import law_locations
 
     law_locations(ctx)
@@ -273,6 +364,7 @@ def r8_symbols_found_wherever_they_live(ctx):
 
 
 RULES = [
+    ("C09.R9", "P1", r9_source_parsed_verbatim, "the source is parsed as written"),
     ("C09.R8", "P1", r8_symbols_found_wherever_they_live, "recurse / call_next are found in globals, closure cells and nested code"),
     ("C09.R1", "P1", r1, "a copy carries everything"),
     ("C09.R2", "P1", r2_positions_survive, "positions survive"),
